@@ -579,7 +579,7 @@ pub fn has_control_flow(u: &Universe, t: &Ty) -> bool {
 
 /// Decode a universe from choices.
 pub fn universe_from(choices: &[u32], cfg: UniCfg, label: &str) -> (Universe, usize) {
-    let mut u = Universe { label: label.to_string(), adts: vec![], subjects: vec![] };
+    let mut u = Universe { label: label.to_string(), adts: vec![], subjects: vec![], pairs: vec![] };
     let n = extend_universe(&mut u, choices, cfg);
     (u, n)
 }
